@@ -317,6 +317,19 @@ pub fn run(ctx: &mut Ctx) {
         } else {
             (rng.pick(&[vec![1.0, 0.0], vec![0.0, 1.0], vec![0.5, 0.5], vec![0.25, 0.75]]).clone(), rng.pick(&[vec![0.5, 0.5], vec![1.0, 0.0], vec![0.75, 0.25]]).clone())
         };
+        // extrapolating GV interpolation weights (a component above one, another below zero; the
+        // sum is one and the blended GV mean stays positive)
+        let wg = if idx % 4 == 1 || idx % 8 == 6 {
+            let cands: Vec<Vec<f64>> = if three {
+                vec![vec![1.5, -0.25, -0.25], vec![0.5, 1.0, -0.5], vec![-0.5, 0.25, 1.25], vec![1.25, 0.0, -0.25], vec![-0.25, 1.25, 0.0]]
+            } else {
+                vec![vec![1.5, -0.5], vec![1.25, -0.25], vec![-0.5, 1.5], vec![-0.25, 1.25]]
+            };
+            let ok: Vec<Vec<f64>> = cands.into_iter().filter(|w| w.iter().zip(&factors).map(|(w, f)| w * f).sum::<f64>() >= 0.25).collect();
+            if ok.is_empty() { wg } else { ctx.count("extrapolating_gv_interpolation_weights", 1.0); rng.pick(&ok).clone() }
+        } else {
+            wg
+        };
         let stream = idx % 2;
         {
             let iw = e.condition.get_interporation_weight_mut();
